@@ -97,10 +97,21 @@ func randTag(r *hx.Rng) int {
 }
 
 func lenList(r *hx.Rng) []int {
-	if thorough {
-		return []int{0, 1, 2, 127, 128, 300, 16383, 16384}
+	// every length whose prefix is one byte, the lengths around the first multiples of 256 (a two-byte prefix whose
+	// low group is 126/127/0/1), and the three-byte boundary
+	l := []int{300, 16383, 16384}
+	for i := 0; i <= 130; i++ {
+		l = append(l, i)
 	}
-	return []int{0, 1, 2, 127, 128, 300}
+	for k := 1; k <= 4; k++ {
+		l = append(l, k*256-2, k*256-1, k*256, k*256+1)
+	}
+	if thorough {
+		for i := 131; i <= 2100; i++ {
+			l = append(l, i)
+		}
+	}
+	return l
 }
 
 // ---------- C01/C02: encoder exactness, sizes, round trip ----------
@@ -244,7 +255,7 @@ func streamScalars(r *hx.Rng, refCheck bool, rt bool) {
 func streamBytes(r *hx.Rng, refCheck bool, rt bool) {
 	for _, n := range lenList(r) {
 		for _, str := range []bool{false, true} {
-			for rep := 0; rep < 3; rep++ {
+			for rep := 0; rep < 1; rep++ {
 				o := eop{typ: 'B', tag: randTag(r), b: r.Bytes(n), str: str}
 				encOne("bytes", o, refCheck)
 				if rt {
@@ -449,11 +460,50 @@ func streamSkip(r *hx.Rng) {
 			nf = 20 + r.Intn(20)
 		}
 		fs := make([]rfield, nf)
-		var buf []byte
 		for j := range fs {
 			fs[j] = randField(r)
-			buf = append(buf, fs[j].enc...)
 		}
+		skipCase(fs)
+	}
+	// systematic payload lengths of a length-delimited field between two other fields: every length up to 520
+	// (thorough: 2100), the lengths around every multiple of 256 up to the three-byte length prefix, and that boundary
+	top := 520
+	if thorough {
+		top = 2100
+	}
+	var lens []int
+	for l := 0; l <= top; l++ {
+		lens = append(lens, l)
+	}
+	step := 8
+	if thorough {
+		step = 1
+	}
+	for k := 3; k < 64; k += step {
+		for _, d := range []int{-2, -1, 0, 1} {
+			if l := k*256 + d; l > top {
+				lens = append(lens, l)
+			}
+		}
+	}
+	lens = append(lens, 16382, 16383, 16384, 16385)
+	for _, l := range lens {
+		num := randTag(r)
+		b := protowire.AppendTag(nil, protowire.Number(num), protowire.BytesType)
+		mid := rfield{num, 2, protowire.AppendBytes(b, r.Bytes(l))}
+		pre := rfield{1, 0, protowire.AppendVarint(protowire.AppendTag(nil, 1, protowire.VarintType), uint64(l))}
+		post := rfield{2, 5, protowire.AppendFixed32(protowire.AppendTag(nil, 2, protowire.Fixed32Type), uint32(r.U64()))}
+		skipCase([]rfield{pre, mid, post})
+	}
+}
+
+func skipCase(fs []rfield) {
+	nf := len(fs)
+	var buf []byte
+	for j := range fs {
+		buf = append(buf, fs[j].enc...)
+	}
+	{
 		for _, fast := range []bool{false, true} {
 			var ops []dop
 			for _, f := range fs {
